@@ -39,6 +39,7 @@ def gen(rng, tier, i):
             chaos["capacity"] = rng.choice([4096, 65536, 1 << 20])
         sc.net["chaos"] = chaos
         sc.net["spawn_yield"] = rng.choice([0, 300])
+        sc.net["lock_yield"] = rng.choice([0, 0, 300])   # seeded scheduling points at the asynchronous locks
         Gus = 3_000_000
     else:
         lk = rng.choice(["http", "socks5", "socks4", "reverse", "tproxy"])
